@@ -1132,13 +1132,15 @@ func isExactlyInfoPath(p *Prog, v ssa.Value, u *unpackCtx) bool {
 }
 
 // isLinkRemover verifies the wrapper summary of DESIGN 5.1: func(path string)
-// error whose every nil return is past an IsNotExist edge of an Lstat on the
+// (…, error) whose every nil-error return is past an IsNotExist edge of an Lstat on the
 // argument, a not-a-symlink edge on that Lstat's result, or the ok edge of
 // os.Remove(argument).
 func (p *Prog) isLinkRemover(g *ssa.Function) bool {
-	if len(g.Params) != 1 || g.Signature.Results().Len() != 1 || !isErrorType(g.Signature.Results().At(0).Type()) {
+	nres := g.Signature.Results().Len()
+	if len(g.Params) != 1 || nres < 1 || !isErrorType(g.Signature.Results().At(nres-1).Type()) {
 		return false
 	}
+	li := nres - 1 // the error; a remover may also report whether it removed something
 	arg := g.Params[0]
 	var lst *ssa.Call
 	for _, ci := range callsTo(g, func(o *types.Func) bool { return isFunc(o, "os", "Lstat") }) {
@@ -1186,7 +1188,7 @@ func (p *Prog) isLinkRemover(g *ssa.Function) bool {
 			continue
 		}
 		maybeNil := false
-		for _, v := range returnValues(r, 0) {
+		for _, v := range returnValues(r, li) {
 			if v == nil || isNilConst(v) {
 				maybeNil = true
 			} else if _, isC := v.(*ssa.Const); !isC {
